@@ -35,7 +35,7 @@ Proof. exact (feedback_once_per_iteration c). Qed.
    entry of every getter that returned holds the value it returned in THIS pass; the entry of
    a getter that raised is exactly what it was; no other entry is touched; and every getter
    was called (the invocation counter advanced by nfb) *)
-Theorem C11_entries_after_the_feedback_phase : forall w, in_flight w = false -> fms c = true ->
+Theorem C11_entries_after_the_feedback_phase : forall w, in_flight w = false -> w_fms w = true ->
   let '(w', e) := denote c raises writes fbval (pseq (map PFeedback (seq 0 (nfb c)))) w in
   in_flight w' = false /\ w_n w' = (w_n w + nfb c)%nat /\ w_ntmode w' = w_ntmode w /\
   forall j, w_nt w' j =
@@ -80,11 +80,10 @@ Proof. exact Tunable.Proofs.C11_topic_type. Qed.
 (* Non-vacuity: in the first teleop pass of the example getters 0 and 2 raise: robotPeriodic of
    that pass sees entry 1 fresh (15) and entries 0 and 2 as they were (4 and 6) *)
 Example C11_nv :
-  nth 1 (filter (fun e => match e with EvRP _ _ => true | _ => false end) (snd (ex_run true))) (EvCB SAutoIter)
-  = EvRP (Some Teleop) [Some 4; Some 15; Some 6]
-  /\ nth 0 (filter (fun e => match e with EvRP _ _ => true | _ => false end) (snd (ex_run true))) (EvCB SAutoIter)
-  = EvRP (Some Disabled) [Some 4; Some 5; Some 6].
-Proof. vm_compute. split; reflexivity. Qed.
+  map (fun e => match e with EvRP m fb _ => (m, fb) | _ => (None, []) end)
+      (firstn 2 (filter (fun e => match e with EvRP _ _ _ => true | _ => false end) (snd (ex_run true))))
+  = [ (Some Disabled, [Some 4; Some 5; Some 6]); (Some Teleop, [Some 4; Some 15; Some 6]) ].
+Proof. vm_compute. reflexivity. Qed.
 
 Print Assumptions C11_called_once_per_iteration.
 Print Assumptions C11_entries_after_the_feedback_phase.
